@@ -138,6 +138,11 @@ func (e editor) clearOnDifferentChoiceCase(existing *Selection, want meta.Meta) 
 }
 
 func (e editor) clearChoiceCase(sel *Selection, c *meta.ChoiceCase) error {
+	// all the data of the case goes, also what a condition or a parameter of the request would
+	// hide: a leaf whose 'when' reads a sibling that was cleared a moment ago is cleared all the same
+	unconditional := *sel
+	unconditional.Constraints = &Constraints{}
+	sel = &unconditional
 	i := newChoiceCaseIterator(sel, c)
 	m := i.nextMeta()
 	for m != nil {
